@@ -154,6 +154,33 @@ def run(chk: Check):
         chk.count("hp:repeat_after_other_calls")
         if c2.tobytes() != cb or t2.tobytes() != tb:
             chk.fail(f"hp_filter depends on earlier calls: the same series and lambda give a different result when filtered again (max diff {float(np.max(np.abs(t2 - np.frombuffer(tb)))):.3g})", case)
+    # two threads filtering series of the SAME length at the same time (the calibrator's loss may be evaluated by a thread pool; a user may filter in threads):
+    # every call returns what it returns when nothing else is going on
+    import threading
+    for n_thr in ([400] if chk.tier == "quick" else [400, 64, 1500]):
+        ya, yb = gen_series(rng, n_thr, "walk"), gen_series(rng, n_thr, "alternating") * 3.0 + 1.0
+        la, lb = 1600.0, 10.0 ** rng.uniform(-2, 5)
+        ref_a, ref_b = hp_filter(ya.copy(), la), hp_filter(yb.copy(), lb)
+        wrong = []
+
+        def worker(y, lam_w, ref, tag):
+            for k in range(150):
+                c_w, t_w = hp_filter(y.copy(), lam_w)
+                if c_w.tobytes() != ref[0].tobytes() or t_w.tobytes() != ref[1].tobytes():
+                    wrong.append((tag, k, float(np.max(np.abs(t_w - ref[1])))))
+                    return
+        ths = [threading.Thread(target=worker, args=(ya, la, ref_a, "A")), threading.Thread(target=worker, args=(yb, lb, ref_b, "B"))]
+        with warnings.catch_warnings():
+            warnings.simplefilter("ignore")
+            for t in ths:
+                t.start()
+            for t in ths:
+                t.join()
+        chk.case(["hp-threads", n_thr, la, lb], True, {"n": n_thr, "lambdas": [la, lb], "calls_per_thread": 150}); chk.count("hp:two_threads_same_length")
+        if wrong:
+            tag, k, dev = wrong[0]
+            chk.fail(f"hp_filter called from two threads at the same time on series of the same length {n_thr} (lambda {la!r} and {lb!r}): call {k} of thread {tag} returned a trend that "
+                     f"differs from the single-threaded result by {dev!r}", {"case": {"kind": "hp_threads", "n": n_thr, "lambdas": [la, lb]}})
     # exact rational solve on small dyadic inputs
     for _ in range(25 if chk.tier == "quick" else 300):
         n = rng.randint(3, 40)
